@@ -94,7 +94,8 @@ def extra_coverage(mon):
     tier = mon.tier if mon.tier in _EXH_MAX_EDGES else "quick"
     k = _EXH_MAX_EDGES[tier]
     return {
-        "exhaustive": mon.counters.get("exhaustive:hypergraphs", 0),
+        "exhaustive": mon.counters.get("exhaustive:hypergraphs", 0) == _exh_count(tier),
+        "exhaustive_families_run": mon.counters.get("exhaustive:hypergraphs", 0),
         "exhaustive_bound": f"all hypergraphs on 4 labelled nodes with <= {k} distinct non-empty edges ({_exh_count(tier)} families; label kind and edge "
                             f"insertion order vary with the index / seed) x 12 settings of (min_size in 1..3, exclude_min_size, normalize) for all five functions",
     }
